@@ -529,6 +529,18 @@ class Engine:
             load = ast.copy_location(ast.BinOp(left=self.as_load(n.target), op=n.op, right=n.value), n)
             ast.fix_missing_locations(load)
             for st2, v in self.eval(load, st):
+                cur = st2.env.get(n.target.id, UNDEF) if isinstance(n.target, ast.Name) else None
+                if isinstance(cur, Maybe):
+                    cur = cur.val
+                if isinstance(cur, Ref) and isinstance(st2.heap.get(cur.oid), Arr) and not st2.heap[cur.oid].meta.get('list') \
+                        and isinstance(v, Ref) and isinstance(st2.heap.get(v.oid), Arr):
+                    # ndarray `a op= b` works in place: the object the name refers to changes, the name is not rebound
+                    st3 = st2.copy()
+                    new = st3.heap[v.oid]
+                    old = st3.heap[cur.oid]
+                    st3.heap[cur.oid] = Arr(new.term, new.shape, old.kind if old.kind == new.kind else new.kind, new.init, old.meta)
+                    yield ('fall', st3, None)
+                    continue
                 yield ('fall', self.assign(n.target, v, st2, aug=True), None)
         elif isinstance(n, ast.If):
             for st1, c in self.eval(n.test, st):
@@ -1097,6 +1109,15 @@ class Engine:
                     return q
         elif name in getattr(self.cur_mod, 'imports', {}):
             modpath, orig = self.cur_mod.imports[name]
+            if orig is None:
+                # `from . import name`: a module, or a name re-exported by the package's __init__
+                import os
+                pkg = os.path.dirname(modpath)
+                init = os.path.join(pkg, '__init__.py')
+                if not os.path.exists(os.path.join(self.src.repo, modpath + '.py')) and os.path.exists(os.path.join(self.src.repo, init)):
+                    imp = self.src.module(init).imports.get(name)
+                    if imp is not None and imp[1] is not None:
+                        modpath, orig = imp
             if orig is not None:
                 for ext in ('.py', '.pyx'):
                     k = '%s%s::%s' % (modpath, ext, orig)
